@@ -20,6 +20,11 @@ package main
 // its own while writing its work-start, and every other pending Execute must still get its own
 // result.
 //
+// The `reuse` stream (every run) holds serial histories on one v3 client in which a later Execute
+// reuses the run ID of an execution that has already completed - succeeded, been rejected, or named
+// an unknown step (e.g. a, b(rejected), c, b(retry with good input), a(again), d): a run ID is only
+// reserved while its execution is pending, so each of these must return its own in-process result.
+//
 // A finding carries the whole session (plugin, calls with inputs, rounds, delays, transport, seed) as
 // its detail; `harness atpsession -replay <finding or session json>` re-runs that session.
 //
@@ -336,10 +341,12 @@ type atpxSpec struct {
 	Transport string      `json:"transport"` // pipe | chunked | split
 	V1        bool        `json:"v1"`
 	Seed      int64       `json:"seed"`
+	Bulk      bool        `json:"bulk_plugin,omitempty"` // the fixed bulk plugin instead of Plugin
+	Reuses    int         `json:"run_id_reuses,omitempty"`
 }
 
 func (sp *atpxSpec) build() *schema.CallableSchema {
-	if sp.Stream == "bulk" {
+	if sp.Stream == "bulk" || sp.Bulk || sp.Plugin == nil {
 		return atpxBulkPlugin()
 	}
 	return sp.Plugin.build()
@@ -691,13 +698,14 @@ func atpxRunSession(sp *atpxSpec, timeout time.Duration) (out atpxSessionResult)
 			failing++ // a failure the server sees
 		}
 	}
+	serverNote := ""
 	select {
 	case n := <-serverDone:
 		if n != failing {
-			find("the server returned %d errors, %d steps failed", n, failing)
+			serverNote = fmt.Sprintf("the server returned %d errors, %d steps failed", n, failing)
 		}
 	case <-time.After(timeout):
-		find("the server did not return within %v after Close", timeout)
+		serverNote = fmt.Sprintf("the server did not return within %v after Close", timeout)
 	}
 	_ = c2sW.Close()
 	_ = c2sR.Close()
@@ -730,6 +738,10 @@ func atpxRunSession(sp *atpxSpec, timeout time.Duration) (out atpxSessionResult)
 			find("Execute %d (run %s, step %s) %s: got err=%v id=%q data=%s, want err=%v id=%q data=%s",
 				i, calls[i].RunID, calls[i].Step, what, got.Err, got.OutID, atpxShort(got.Data), want.Err, want.OutID, atpxShort(want.Data))
 		}
+	}
+	if serverNote != "" {
+		// after the per-Execute differences, which say more
+		find("%s", serverNote)
 	}
 	for _, cp := range chunkPipes {
 		out.chunks += cp.chunks
@@ -848,6 +860,66 @@ func atpxCmd(a Args) {
 	for i := 0; i < nBulk; i++ {
 		jobs = append(jobs, atpxBulkSpec(n+i, brnd, a.Seed*2000003+int64(i)))
 	}
+	// the reuse stream: serial histories that reuse the run IDs of completed executions
+	nReuse := 32
+	if thorough {
+		nReuse = 400
+	}
+	for i := 0; i < nReuse; i++ {
+		idx := n + nBulk + i
+		sp := &atpxSpec{Idx: idx, Stream: "reuse", Pattern: "serial", Transport: []string{"pipe", "chunked", "split"}[brnd.Intn(3)], Seed: a.Seed*3000017 + int64(i)}
+		pool := 2 + brnd.Intn(3)
+		k := 5 + brnd.Intn(6)
+		used := map[int]int{}
+		if i%2 == 0 {
+			sp.Plugin = g.plugin()
+		}
+		for c := 0; c < k; c++ {
+			id := brnd.Intn(pool)
+			if c >= 2 && len(used) >= 2 && brnd.Intn(2) == 0 {
+				// certainly a reuse: one of the IDs used so far
+				var keys []int
+				for u := range used {
+					keys = append(keys, u)
+				}
+				sort.Ints(keys)
+				id = keys[brnd.Intn(len(keys))]
+			}
+			used[id]++
+			run := fmt.Sprintf("u%d-%c", idx, 'a'+id)
+			uid := fmt.Sprintf("%s#%d", run, c)
+			call := atpxCall{RunID: run}
+			if sp.Plugin != nil {
+				st := sp.Plugin.Steps[g.g.R.Intn(len(sp.Plugin.Steps))]
+				call.Step = st.ID
+				call.V = g.input(st, uid)
+				if brnd.Intn(8) == 0 {
+					call.Step = "no-such-step"
+				}
+			} else {
+				call.Step = "bulk"
+				switch kind := brnd.Intn(100); {
+				case kind < 55:
+					call.V = hx.StrAny([2]*hx.Val{hx.Str("uid"), hx.Str(uid)}, [2]*hx.Val{hx.Str("size"), hx.Int("int64", int64(brnd.Intn(3000)))})
+				case kind < 80:
+					call.V = hx.StrAny([2]*hx.Val{hx.Str("uid"), hx.Str(uid)}, [2]*hx.Val{hx.Str("size"), hx.Str("large")})
+				case kind < 90:
+					call.V = hx.StrAny([2]*hx.Val{hx.Str("size"), hx.Int("int64", 10)})
+				default:
+					call.Step = "no-such-step"
+					call.V = hx.StrAny([2]*hx.Val{hx.Str("uid"), hx.Str(uid)}, [2]*hx.Val{hx.Str("size"), hx.Int("int64", 8)})
+				}
+			}
+			sp.Calls = append(sp.Calls, call)
+		}
+		sp.Bulk = sp.Plugin == nil
+		reuses := 0
+		for _, v := range used {
+			reuses += v - 1
+		}
+		sp.Reuses = reuses
+		jobs = append(jobs, sp)
+	}
 	results := make([]atpxSessionResult, len(jobs))
 	sem := make(chan struct{}, 16)
 	var wg sync.WaitGroup
@@ -890,6 +962,9 @@ func atpxCmd(a Args) {
 		if j.Stream == "bulk" {
 			s.stats["bulk:executes"] += r.calls
 			s.stats["bulk:rounds"] += len(j.Rounds)
+		} else if j.Stream == "reuse" {
+			s.stats["reuse:executes"] += r.calls
+			s.stats["reuse:run-id-reuses"] += j.Reuses
 		} else {
 			s.stats[fmt.Sprintf("calls-per-session:%02d", len(j.Calls))]++
 		}
